@@ -1,6 +1,26 @@
 package handshake
 
-import "github.com/blinklabs-io/gouroboros/protocol"
+import (
+	"github.com/blinklabs-io/gouroboros/connection"
+	"github.com/blinklabs-io/gouroboros/protocol"
+)
 
-// Overlay shim: the protocol's initial state (the value client.go/server.go pass as InitialState).
+// Overlay shim: the protocol's initial state and handler entry points on objects built
+// without starting any goroutine.
+
 func VerifInitialState() protocol.State { return statePropose }
+
+func VerifNewServer(cfg *Config, id connection.ConnectionId) *Server {
+	s := &Server{config: cfg, Protocol: protocol.VerifRecordingProtocol(StateMapNtN, statePropose)}
+	s.callbackContext = CallbackContext{Server: s, ConnectionId: id}
+	return s
+}
+
+func VerifNewClient(cfg *Config, id connection.ConnectionId) *Client {
+	c := &Client{config: cfg, Protocol: protocol.VerifRecordingProtocol(StateMapNtN, statePropose)}
+	c.callbackContext = CallbackContext{Client: c, ConnectionId: id}
+	return c
+}
+
+func VerifServerHandle(s *Server, msg protocol.Message) error { return s.handleMessage(msg) }
+func VerifClientHandle(c *Client, msg protocol.Message) error { return c.messageHandler(msg) }
